@@ -91,6 +91,14 @@ CHECKS = {
     note='Trusted: clang lowering (validated per run), irsym, z3, log as uninterpreted function, normal_distribution::operator() stubbed as mean+stddev*Z (Z arbitrary real). The removal loop of the solver is covered by C08.',
     technique='symbolic execution of LLVM IR + z3 (LRA/NRA with uninterpreted log)',
     design='3/C04'),
+ 'C06': dict(
+    level='other',
+    text=('The real run() of contact models 0, 1 and 2 (face list, update_face_aabbs, store_face_in_uspg, per-node voxel lookup, aabb_intersection_check) executes from the LLVM IR on a two/three-cell tissue whose query node p is symbolic in boxes that straddle voxel boundaries '
+          '(three placements: at, far from, and straddling the origin; two cut-off settings; 8 sub-boxes each, 27 thorough). irsym records every (node, face) pair handed to the contact rules; per path z3 proves for all node/face pairs of different cells: not handed over => the node lies outside the face box padded by the cut-off. '
+          'Models of failed obligations are replayed natively against the same model with one voxel per axis. Exact reals; many-cell tissues and symbolic cut-offs are not covered.'),
+    note='Trusted: clang lowering (validated per run incl. the reference run), irsym (OpenMP sequential model), exact polynomial normal form in p, z3. The narrow phase runs as is (C05/C07 are about it).',
+    technique='symbolic execution of LLVM IR (whole contact-model run) with recorded hand-overs; z3 (linear real arithmetic + to_int); native differential replay against a single-voxel grid',
+    design='3/C06'),
  'C14': dict(
     level='other',
     text=('Whole iterations of the real solver (constructor + run_iteration, contact models 0/1/2, dynamic models 0/1) run from the LLVM IR on five small tissues whose input coordinates are concrete + t with t a symbolic real vector, '
